@@ -18,7 +18,8 @@ CONSTANTS CacheIds,     \* cache instances (1 = the primary one)
           InitCaps,     \* with_capacity arguments
           Addl,         \* arguments of reserve / try_reserve / shrink_to
           Ops,          \* names of the enabled operations
-          MaxWord       \* iterator words up to length len + MaxWord
+          MaxWord,      \* iterator words up to length len + MaxWord
+          Letters       \* the letters of iterator words (subset of IterLetters)
 
 VARIABLES cs,           \* cache id -> cache record
           gh,           \* cache id -> ghost history (C13)
@@ -32,7 +33,7 @@ MkObs(c, a, x, d, ds) == [c |-> c, a |-> a, x |-> x, d |-> d, ds |-> ds]
 
 RECURSIVE WordsOfLen(_)
 WordsOfLen(n) == IF n = 0 THEN {<<>>}
-                 ELSE {<<h>> \o w : h \in {"n", "b"}, w \in WordsOfLen(n - 1)}
+                 ELSE {<<h>> \o w : h \in Letters, w \in WordsOfLen(n - 1)}
 WordsUpTo(n) == UNION {WordsOfLen(i) : i \in 0..n}
 
 KeyOps1   == {"get", "get_entry", "touch", "peek", "peek_entry", "contains",
